@@ -245,6 +245,12 @@ def make_ode(
     # components = add_temporal_state(components, t)
     check_components(components=components)
     _, symbol_values, symbols, lookup = gather_atoms(components=components)
+    # 't' and 'time' always refer to time and 'pi' to the constant, so a state,
+    # parameter or expression with such a name would silently be ignored
+    if reserved := {"t", "time", "pi"}.intersection(lookup):
+        raise exceptions.ReservedSymbolError(
+            reserved, reason="'t' and 'time' refer to time and 'pi' to the constant"
+        )
     symbols["time"] = t
     symbols["t"] = t
 
